@@ -678,3 +678,64 @@ def module_template(ctx, rid):
             "Extend::extend(P1,T[pub mod #0 { use super :: #1 ; #( #2 )* #( #3 )* }](P0.name,P0.root_mod,%s,%s))" % (Ty, M)]
     expect_term(ctx, rid, "module-template", fn["sp"], t, exps,
                 "module = `pub mod name { use super::root; child modules; types }`, both lists iterated as BTreeMap::values (key order)")
+
+
+# ----------------------------------------------------------------- C03.1 / C02.1 ----
+def gen_mod_fn(ctx, rid):
+    fns = q.fn_by_suffix(ctx.P, "generate_types_mod", "scale_typegen")
+    return q.anchor_fn(ctx, rid, "generate_types_mod", fns)
+
+
+def definition_loop(ctx, rid, fn):
+    """the `for` over registry entries in generate_types_mod: (loop match node, pat, body)"""
+    for n in walk(fn["body"]):
+        fl = as_for_loop(n)
+        if fl is not None and show(_norm(ctx, fn).term(fl[1])) == "P0.type_registry.types":
+            return n, fl[0], fl[2]
+    ctx.bad(rid, "missing-anchor/definition-loop", fn["sp"], "no loop over the registry's entries in generate_types_mod")
+    return None
+
+
+def keep_first_or_error(ctx, rid):
+    """K12+K5: module map written only through a vacant entry; occupied -> no write, Err(DuplicateTypePath) iff !types_equal(new, kept)"""
+    fn = gen_mod_fn(ctx, rid)
+    if fn is None:
+        return
+    N = _norm(ctx, fn)
+    lp = definition_loop(ctx, rid, fn)
+    if lp is None:
+        return
+    loop, pat, body = lp
+    ms = q.matches_on(body, lambda t: t.startswith("std::collections::btree_map::Entry<"))
+    if len(ms) != 1:
+        ctx.bad(rid, "missing-anchor/entry-match", fn["sp"], "expected one match on btree_map::Entry in the definition loop, found %d" % len(ms))
+        return
+    m = ms[0]
+    E = "elem(P0.type_registry.types)"
+    arms = arms_by_variant(m)
+    sc = show(N.term(m["scrut"]))
+    ctx.expect(sc.startswith("BTreeMap::entry(") and sc.endswith(",%s.ty.path)" % E), rid, "keep-first/key", site(m),
+               "the module map is keyed by the entry's full path", "entry key term: " + sc[-200:])
+    va = arms.get("Vacant")
+    oc = arms.get("Occupied")
+    if va is None or oc is None:
+        ctx.bad(rid, "keep-first/arms", site(m), "Vacant / Occupied arms not both explicit")
+        return
+    vt = show(N.term(va["body"], arm_syms(va["pat"])))
+    expect_term(ctx, rid, "keep-first/vacant", va, vt, "{VacantEntry::insert(A,(%s.id,%s))}" % (E, ANY), "vacant: insert (this entry's id, its IR)")
+    ot = show(N.term(oc["body"], arm_syms(oc["pat"])))
+    exp_o = "early{Not(utils::types_equal(%s.id,OccupiedEntry::get(A).0,P0.type_registry))=>return Err(TypegenError::DuplicateTypePath(ToString::to_string(%s.ty.path)))}'()'" % (E, E)
+    expect_term(ctx, rid, "keep-first/occupied", oc, ot, exp_o,
+                "occupied: nothing is written; Err(DuplicateTypePath(path)) iff the new type is not shape-equal to the kept one (ids flow by identity)")
+    # no other insertion into any ModuleIR.types
+    writers = []
+    for c, b in ctx.P.all_bodies(GEN):
+        if "body" not in b or q.derived(b):
+            continue
+        for n in walk(b["body"]):
+            if n.get("k") == "MethodCall" and cshort(n.get("callee", "")) in ("BTreeMap::insert", "BTreeMap::entry", "BTreeMap::extend", "BTreeMap::append", "BTreeMap::get_mut", "BTreeMap::remove", "BTreeMap::retain"):
+                rt = peel(n["recv"].get("adj") or n["recv"].get("ty", ""))
+                if "(u32, typegen::ir::type_ir::TypeIR)" in rt:
+                    writers.append((cshort(b["path"]), cshort(n["callee"])))
+    ctx.expect(writers == [("TypeGenerator::generate_types_mod", "BTreeMap::entry")], rid, "keep-first/who-may-write", fn["sp"],
+               "the per-module type map is mutated only through that entry() call", "writers of ModuleIR.types: " + str(writers))
